@@ -70,6 +70,15 @@ class CaseResult:
     def warns(self):
         return [(int(f[1]), int(f[2]), f[3], f[4]) for f in (l.split() for l in self.impl) if f[0] == "WARN"]
 
+    def codes(self):
+        """(error code, accept code) as the implementation emits them"""
+        for l in self.impl:
+            f = l.split()
+            if f[0] == "CODES":
+                return int(f[1]), int(f[2])
+        n = len(self.rows())
+        return n + 100, n + 200
+
     def packed(self):
         return any(l.startswith("PACKED 1") for l in self.impl)
 
